@@ -8,9 +8,12 @@ Reads, with Python's `ast`, every module under $PEPIT_REPO/PEPit except examples
   module_objects     (module, name, class)               module-level `name = Point(...)` / `Expression(...)` ...
   module_containers  (module, name, kind)                module-level dict / list literals (WRAPPERS)
   container_writes   (module, name, op, where)           writes into such a container from PEPit's own code
+  module_object_writes [where: what]                     `null_point.<attr> = ..`, `null_point.decomposition_dict[k] = ..`,
+                                                         `null_point.set_name(..)` ... inside PEPit's functions
   opaque_writes      [where: what]                       writes to class state that cannot be attributed statically
                                                          (cls.x = .., type(self).x = .., self.__class__.x, setattr, global,
-                                                         mutable default arguments, registries mutated through self)
+                                                         mutable default arguments, registries mutated through self,
+                                                         classes defining __iadd__-style in-place operators)
   reset_fields       (class, attribute, value)           the assignments of PEP._reset_classes, in order
   init_resets_first  bool                                PEP.__init__'s first statement is `self._reset_classes()`
   reads_before_reset [..]                                class-state reads that precede it (always [] when the flag is true)
@@ -28,6 +31,8 @@ import os
 REPO = os.environ.get("PEPIT_REPO", "/repo")
 OUTPUT = "Globals.v"
 
+INPLACE_DUNDERS = {"__iadd__", "__isub__", "__imul__", "__itruediv__", "__ifloordiv__", "__imatmul__", "__ipow__",
+                   "__iand__", "__ior__", "__ixor__"}
 MUTATING_METHODS = {"append", "extend", "insert", "pop", "remove", "clear", "update", "setdefault", "add",
                     "discard", "sort", "reverse", "popitem", "__setitem__", "__delitem__", "__iadd__"}
 
@@ -89,7 +94,9 @@ def pure_default(d):
 class Scan(ast.NodeVisitor):
     """one module: mutations of class state, opaque writes"""
 
-    def __init__(self, rel, classes, containers, class_registries):
+    def __init__(self, rel, classes, containers, class_registries, module_objects=()):
+        self.module_objects = set(module_objects)
+        self.object_writes = []
         self.rel = rel
         self.classes = classes
         self.containers = containers
@@ -134,6 +141,11 @@ class Scan(ast.NodeVisitor):
         while isinstance(base, ast.Subscript):
             base, sub = base.value, True
         ca = self.class_attr(base)
+        root = base
+        while isinstance(root, (ast.Attribute, ast.Subscript)):
+            root = root.value
+        if isinstance(root, ast.Name) and root.id in self.module_objects and root is not base and self.fn[-1] != "<module>":
+            self.object_writes.append("%s: %s %s" % (self.where(node), ast.unparse(base), op))
         if ca:
             self.mutations.append((ca[0], ca[1], ("[]" + op) if sub else op, self.where(node)))
         elif self.indirect_class(base):
@@ -169,6 +181,9 @@ class Scan(ast.NodeVisitor):
             if not pure_default(d):
                 self.opaque.append("%s:%d(%s): mutable / computed default argument %s" %
                                    (self.rel, n.lineno, n.name, ast.unparse(d)))
+        if n.name in INPLACE_DUNDERS and self.cls[-1]:
+            self.opaque.append("%s:%d: class %s defines %s (augmented assignment would mutate shared objects in place)"
+                               % (self.rel, n.lineno, self.cls[-1], n.name))
         self.fn.append((self.cls[-1] + "." if self.cls[-1] else "") + n.name)
         self.generic_visit(n)
         self.fn.pop()
@@ -211,6 +226,12 @@ class Scan(ast.NodeVisitor):
                 self.opaque.append("%s: %s on %s" % (self.where(n), f.id, ast.unparse(a0)))
         if isinstance(f, ast.Name) and f.id in ("globals", "vars", "exec", "eval"):
             self.opaque.append("%s: call of %s" % (self.where(n), f.id))
+        if isinstance(f, ast.Attribute) and f.attr in MUTATING_METHODS | {"set_name"}:
+            root = f.value
+            while isinstance(root, (ast.Attribute, ast.Subscript)):
+                root = root.value
+            if isinstance(root, ast.Name) and root.id in self.module_objects:
+                self.object_writes.append("%s: %s.%s(..)" % (self.where(n), ast.unparse(f.value), f.attr))
         if isinstance(f, ast.Attribute) and f.attr in MUTATING_METHODS:
             recv = f.value
             while isinstance(recv, ast.Subscript):
@@ -301,13 +322,14 @@ def collect():
             status[item] = "%s:%d: module-level statement outside the grammar: %s" % (rel, s.lineno,
                                                                                     ast.unparse(s)[:80])
     # ---- mutations
-    mutations, container_writes, opaque = [], [], []
+    mutations, container_writes, opaque, object_writes = [], [], [], []
     for rel, tree in trees:
-        sc = Scan(rel, classes, containers, class_registries)
+        sc = Scan(rel, classes, containers, class_registries, [n for _, n, _ in module_objects])
         sc.visit(tree)
         mutations += sc.mutations
         container_writes += sc.container_writes
         opaque += sc.opaque
+        object_writes += sc.object_writes
     # ---- _reset_classes / PEP.__init__
     reset_fields, init_first, reads_before = [], False, []
     pep = None
@@ -365,6 +387,7 @@ def collect():
             status["init"] = True if idx else "PEP.__init__ never calls self._reset_classes() at top level"
     return dict(status=status, class_attrs=class_attrs, mutations=mutations, module_objects=module_objects,
                 module_containers=module_containers, container_writes=container_writes, opaque=opaque,
+                object_writes=object_writes,
                 reset_fields=reset_fields, init_first=init_first, reads_before=reads_before,
                 n_files=len(trees), n_classes=len(classes))
 
@@ -405,6 +428,8 @@ def translate():
     lst("container_writes", "(string * string * string)",
         ["(%s, %s, %s)" % (cstr(m), cstr(n), cstr(op)) for m, n, op, _ in c["container_writes"]],
         "writes into a module-level container from PEPit's own code")
+    lst("module_object_writes", "string", [cstr(o) for o in c["object_writes"]],
+        "writes to attributes / dictionaries of the module-level DSL objects from PEPit's own code (must be empty)")
     lst("opaque_writes", "string", [cstr(o) for o in c["opaque"]],
         "writes to class state that cannot be attributed statically (must be empty)")
     lst("reset_fields", "(string * string * ginit)",
